@@ -127,7 +127,7 @@ class SSHKnownHosts:
     def load(self, known_hosts: str) -> None:
         """Load known hosts data into this object"""
 
-        for line in known_hosts.splitlines():
+        for line in known_hosts.split('\n'):
             line = line.strip()
             if not line or line.startswith('#'):
                 continue
